@@ -1,62 +1,544 @@
 """
 C17 — a failed or refused export leaves no trace.
 
-Cases = metainfo recipes of C07's generator (every failing class + valid ones) × target
-(absent | existing file | directory | missing parent directory) × overwrite × validate flag, and
-streams (BytesIO with prior content at an odd position, non-seekable sink, stream whose write()
-raises OSError, real file object).  Observable: error kind, and the bytes/existence of the target
-afterwards.  Specification (checked on the implementation directly):
-  error  => target byte for byte as before;  no overwrite + exists => WriteError;
-  ok     => target holds exactly dump();  stream: untouched unless dump() succeeded,
-            seekable => content = dump, non-seekable => old ++ dump.
-The Lean model `Torf.Write` (instantiated with C07's `dump`) is compared under hyp.
+Cases = metainfo recipes of C07's generator (every failing class + valid ones) × a *world*:
+
+  write(path)      what is at the path (absent | file, short or long | directory, empty or not | symlink to a
+                   file | symlink loop | dangling symlink | socket | symlink to /dev/full, /dev/null | running
+                   executable | name too long | missing parent | parent is a file) × who may do what (root, or an
+                   unprivileged effective uid facing a read-only file / read-only directory / unsearchable
+                   directory) × fault while writing (RLIMIT_FSIZE = k bytes: a real EFBIG after k bytes; injected:
+                   open() raises errno e, write() raises after k bytes, close() raises) × overwrite × validate
+  write_stream(s)  BytesIO | real files opened 'r+b' 'w+b' 'wb' 'ab' 'a+b' 'rb' (buffered or not) | text-mode files
+                   and StringIO | pipes (buffered or not, broken) | custom sink | a wrapper that raises OSError at
+                   its k-th method call and/or after q written bytes; × prior content (empty, shorter, longer than
+                   the torrent) × position (0, inside, end, past the end)
+
+Observables: error kind; what is at the path afterwards (type, bytes) and a snapshot of the whole scratch
+directory (types, modes, link targets, bytes); stream bytes, position, number of method calls.
+
+Decision: the implementation's outcome is judged by the Lean specification `fileSpec` / `streamSpec`
+(lean/Torf/Spec/Write.lean, driver ops `c17.judge.*`) with d := what dump() really returned; the Lean model
+`Torf.Write` (instantiated with C07's `dump`) is proved to meet the same specification (C17_*_meets_spec) and is
+compared with the implementation under hyp.
 """
 import errno
 import hashlib
 import io
 import json
 import os
+import resource
 import shutil
+import signal
+import socket
+import stat
+import subprocess
 
 from harness import common
 from harness.impl import recipes as R
 from harness.props import c07
 
 RULE = ('metainfo recipes from the C07 generator (valid + 1..3 mutations; every validation rule and unconvertible '
-        'values) x target absent/file/directory/missing-parent x overwrite x validate flag; streams: BytesIO with '
-        'prior content and odd position, non-seekable sink, failing write(), real file object; non-trivial = the '
-        'export fails or the target/stream has prior content; distinct = distinct (recipe, target, flags)')
-OLD = b'OLD-CONTENT-0123456789'
+        'values) x world: path absent/file/long file/dir/empty dir/missing parent/parent is a file/symlinks/socket/'
+        'device/busy executable/over-long name, unprivileged euid vs read-only file, read-only dir, unsearchable dir, '
+        'RLIMIT_FSIZE after k bytes, injected open/write/close faults x overwrite x validate; streams: BytesIO, files '
+        "opened r+b/w+b/wb/ab/a+b/rb (un)buffered, text streams, pipes, sink, wrapper failing at its k-th call or after "
+        'q bytes x prior content empty/short/long x position; exhaustive sweep of all worlds on 6 metainfos (thorough: 66) + random '
+        'worlds on every recipe; non-trivial = the export fails or the target/stream has prior content; '
+        'distinct = distinct (recipe, world, flags)')
+
+PRIORS = {'empty': b'', 'short': b'OLD12', 'old': b'OLD-CONTENT-0123456789',
+          'long': bytes((i * 37 + 11) % 251 for i in range(2048))}
+OLD = PRIORS['old']
+NOBODY = 65534
+
+# ---------------------------------------------------------------------------------------------------------
+# file worlds: name -> (what the model is told beyond what is observed).  `node` and `existsAns` are always
+# *observed* (lstat/stat as root; os.path.exists under the identity the export runs with); `open_err` is what the
+# world is built to provoke and is cross-checked by a side-effect-free probe where one exists.
+FILE_WORLDS = {
+    # name:            (prior,   open_err, nobody, quota)
+    'absent':          (None,    False, False, None),
+    'file':            ('old',   False, False, None),
+    'file-long':       ('long',  False, False, None),
+    'file-empty':      ('empty', False, False, None),
+    'symlink-file':    ('old',   False, False, None),
+    'dir':             (None,    True,  False, None),
+    'emptydir':        (None,    True,  False, None),
+    'noparent':        (None,    True,  False, None),
+    'parentfile':      (None,    True,  False, None),
+    'symlink-loop':    (None,    True,  False, None),
+    'dangling-link':   (None,    True,  False, None),
+    'name-too-long':   (None,    True,  False, None),
+    'socket':          (None,    True,  False, None),
+    'busy-exe':        (None,    True,  False, None),
+    'devfull-link':    (None,    False, False, 0),
+    'devnull-link':    (None,    False, False, None),
+    'ro-file':         ('old',   True,  True,  None),     # file 0444 in a directory the euid may modify
+    'ro-dir-file':     ('old',   True,  True,  None),     # file not writable, directory not writable
+    'ro-dir-absent':   (None,    True,  True,  None),     # nothing there, directory not writable
+    'hidden-file':     ('old',   True,  True,  None),     # directory not searchable: exists() says False
+}
+FAULTABLE = ('absent', 'file', 'file-long', 'symlink-file')    # worlds on which write-time faults are played
+OPEN_ERRNOS = ('EACCES', 'EROFS', 'EMFILE', 'ENOSPC', 'EIO', 'EPERM')
+QUOTAS = (0, 1, 17, 100000)
+
+STREAM_KINDS = {
+    # kind:            flags of the model's stream
+    'bytesio':         {},
+    'file:r+b':        {},
+    'file:r+b:0':      {},
+    'file:w+b':        {},
+    'file:wb':         {},
+    'file:ab':         {'append': True},
+    'file:ab:0':       {'append': True},
+    'file:a+b':        {'append': True},
+    'file:rb':         {'readOnly': True},
+    'text:r+':         {'text': True},
+    'text:a':          {'text': True, 'append': True},
+    'text:r':          {'text': True, 'readOnly': True},
+    'stringio':        {'text': True},
+    'pipe':            {'seekable': False},
+    'pipe:0':          {'seekable': False},
+    'brokenpipe:0':    {'seekable': False, 'quota': 0},
+    'sink':            {'seekable': False},
+}
+FAULTY_INNER = ('bytesio', 'file:r+b', 'file:ab', 'sink', 'pipe:0')
+STREAM_FAULTS = ([{'at': k} for k in range(5)] + [{'quota': q} for q in (0, 1, 17)] + [{'at': 3, 'quota': 1}] +
+                 [{'quota': q, 'short': True} for q in (0, 1, 17)])     # raw stream: write() returns a short count
+RAW_FILE_KINDS = ('file:r+b:0', 'file:ab:0')                            # real raw files under RLIMIT_FSIZE = k
+RAW_FSIZE = (0, 1, 17, 100000)
 
 
 class Sink:
     """non-seekable writable"""
-    def __init__(self, prior, fail=False):
+    def __init__(self, prior):
         self.buf = bytearray(prior)
-        self.fail = fail
 
     def seekable(self):
         return False
 
     def write(self, b):
-        if self.fail:
-            raise OSError(errno.ENOSPC, 'No space left on device')
         self.buf += b
         return len(b)
 
 
-class FailingBytesIO(io.BytesIO):
+class Faulty:
+    """wraps a stream; counts the calls of seekable/seek/truncate/write; the call with index `at` raises OSError
+    (without reaching the inner stream); write() passes `quota` bytes on, then raises OSError"""
+    def __init__(self, inner, at=None, quota=None, short=False):
+        self._inner, self._at, self._quota, self._short, self.calls = inner, at, quota, short, 0
+
+    def _enter(self):
+        i = self.calls
+        self.calls += 1
+        if i == self._at:
+            raise OSError(errno.EIO, 'Input/output error')
+
+    def seekable(self):
+        self._enter()
+        return self._inner.seekable()
+
+    def seek(self, *a):
+        self._enter()
+        return self._inner.seek(*a)
+
+    def truncate(self, *a):
+        self._enter()
+        return self._inner.truncate(*a)
+
     def write(self, b):
-        raise OSError(errno.ENOSPC, 'No space left on device')
+        self._enter()
+        if self._quota is None:
+            return self._inner.write(b)
+        k = min(self._quota, len(b))
+        self._inner.write(bytes(b[:k]))
+        self._quota -= k
+        if k < len(b) and not self._short:
+            raise OSError(errno.ENOSPC, 'No space left on device')
+        return k
+
+    def __getattr__(self, name):
+        return getattr(self._inner, name)
+
+
+class _FaultyFile:
+    """what the patched open() returns for an injected write/close fault"""
+    def __init__(self, f, quota, close_err):
+        self._f, self._quota, self._close_err = f, quota, close_err
+
+    def write(self, b):
+        if self._quota is None:
+            return self._f.write(b)
+        k = min(self._quota, len(b))
+        self._f.write(bytes(b[:k]))
+        self._f.flush()
+        self._quota -= k
+        if k < len(b):
+            raise OSError(errno.ENOSPC, 'No space left on device')
+        return k
+
+    def close(self):
+        self._f.close()
+        if self._close_err:
+            self._close_err = False
+            raise OSError(errno.EIO, 'Input/output error')
+
+    def __enter__(self):
+        return self
+
+    def __exit__(self, *a):
+        self.close()
+
+    def __getattr__(self, name):
+        return getattr(self._f, name)
+
+
+class _Identity:
+    """run a block with the unprivileged effective uid (if the harness is root)"""
+    def __init__(self, nobody):
+        self.on = bool(nobody) and os.geteuid() == 0
+
+    def __enter__(self):
+        if self.on:
+            os.setegid(NOBODY)
+            os.seteuid(NOBODY)
+
+    def __exit__(self, *a):
+        if self.on:
+            os.seteuid(0)
+            os.setegid(0)
+
+
+class _FsizeLimit:
+    """RLIMIT_FSIZE = k for the block: the k+1-th byte written to any file fails with EFBIG (also for root)"""
+    def __init__(self, k):
+        self.k = k
+
+    def __enter__(self):
+        if self.k is not None:
+            signal.signal(signal.SIGXFSZ, signal.SIG_IGN)
+            self.old = resource.getrlimit(resource.RLIMIT_FSIZE)
+            resource.setrlimit(resource.RLIMIT_FSIZE, (self.k, self.old[1]))
+
+    def __exit__(self, *a):
+        if self.k is not None:
+            resource.setrlimit(resource.RLIMIT_FSIZE, self.old)
+
+
+class _PatchedOpen:
+    """inject a fault into open() *of the target path in a writing mode* (builtins.open, which is what a module
+    level `open` resolves to); every other open() is untouched"""
+    def __init__(self, path, fault):
+        self.path, self.fault = os.path.abspath(path), fault
+
+    def __enter__(self):
+        import builtins
+        self.real = real = builtins.open
+        fault, path = self.fault, self.path
+        if fault is None or fault['kind'] == 'fsize':
+            return
+
+        def patched(file, mode='r', *a, **kw):
+            try:
+                hit = os.path.abspath(os.fspath(file)) == path and any(ch in mode for ch in 'wxa+')
+            except TypeError:
+                hit = False
+            if not hit:
+                return real(file, mode, *a, **kw)
+            if fault['kind'] == 'open':
+                no = getattr(errno, fault['errno'])
+                raise OSError(no, os.strerror(no), path)
+            f = real(file, mode, *a, **kw)
+            return _FaultyFile(f, fault.get('k') if fault['kind'] == 'write' else None, fault['kind'] == 'close')
+        builtins.open = patched
+
+    def __exit__(self, *a):
+        import builtins
+        builtins.open = self.real
+
+
+def _rmtree(p):
+    if not os.path.lexists(p):
+        return
+    for dp, dns, _ in os.walk(p):
+        for d in dns:
+            try:
+                os.chmod(os.path.join(dp, d), 0o700)
+            except OSError:
+                pass
+    try:
+        os.chmod(p, 0o700)
+    except OSError:
+        pass
+    shutil.rmtree(p, ignore_errors=True)
+
+
+def _bytes_repr(b):
+    return b.hex() if len(b) <= 4096 else 'sha1:' + hashlib.sha1(b).hexdigest() + f':{len(b)}'
+
+
+def _snapshot(base):
+    """everything below base: relative name -> [type, mode, bytes | link target]"""
+    out = {}
+    for dp, dns, fns in os.walk(base):
+        for n in dns + fns:
+            p = os.path.join(dp, n)
+            st = os.lstat(p)
+            rel = os.path.relpath(p, base)
+            m = stat.S_IMODE(st.st_mode)
+            if stat.S_ISLNK(st.st_mode):
+                out[rel] = ['link', os.readlink(p)]
+            elif stat.S_ISDIR(st.st_mode):
+                out[rel] = ['dir', m]
+            elif stat.S_ISREG(st.st_mode):
+                with open(p, 'rb') as f:
+                    out[rel] = ['file', m, _bytes_repr(f.read())]
+            else:
+                out[rel] = ['other', m]
+    return out
 
 
 def _node(path):
-    if os.path.isdir(path):
+    """what is at the path, as the model sees it"""
+    try:
+        st = os.lstat(path)
+    except OSError:
+        return {'k': 'absent'}
+    if stat.S_ISLNK(st.st_mode):
+        try:
+            st = os.stat(path)
+        except OSError:
+            return {'k': 'other'}
+    if stat.S_ISDIR(st.st_mode):
         return {'k': 'dir'}
-    if os.path.lexists(path):
+    if stat.S_ISREG(st.st_mode):
         with open(path, 'rb') as f:
             return {'k': 'file', 'content': f.read().hex()}
-    return {'k': 'absent'}
+    return {'k': 'other'}
+
+
+def _build_world(base, world):
+    """create the world below `base`; returns (path, cleanup callables)"""
+    prior, _, _, _ = FILE_WORLDS[world]
+    os.makedirs(base)
+    os.chmod(base, 0o777)
+    d = os.path.join(base, 'd')
+    os.makedirs(d)
+    os.chmod(d, 0o777)
+    path = os.path.join(d, 'out.torrent')
+    with open(os.path.join(d, 'sibling'), 'wb') as f:
+        f.write(b'sibling')
+    cleanup = []
+    if world in ('file', 'file-long', 'file-empty', 'ro-file', 'ro-dir-file', 'hidden-file'):
+        with open(path, 'wb') as f:
+            f.write(PRIORS[prior])
+        os.chmod(path, 0o444 if world == 'ro-file' else 0o644)
+    elif world == 'symlink-file':
+        with open(os.path.join(d, 'real.bin'), 'wb') as f:
+            f.write(PRIORS[prior])
+        os.symlink('real.bin', path)
+    elif world == 'dir':
+        os.makedirs(path)
+        with open(os.path.join(path, 'keep'), 'wb') as f:
+            f.write(b'k')
+    elif world == 'emptydir':
+        os.makedirs(path)
+    elif world == 'noparent':
+        path = os.path.join(d, 'missing', 'out.torrent')
+    elif world == 'parentfile':
+        path = os.path.join(d, 'sibling', 'out.torrent')
+    elif world == 'symlink-loop':
+        os.symlink('out.torrent', path)
+    elif world == 'dangling-link':
+        os.symlink(os.path.join('missing', 'x'), path)
+    elif world == 'name-too-long':
+        path = os.path.join(d, 'n' * 300)
+    elif world == 'socket':
+        s = socket.socket(socket.AF_UNIX)
+        s.bind(path)
+        cleanup.append(s.close)
+    elif world == 'busy-exe':
+        exe = shutil.which('sleep')
+        if not exe:
+            return None, cleanup
+        shutil.copy(exe, path)
+        os.chmod(path, 0o755)
+        pr = subprocess.Popen([path, '30'], stdin=subprocess.DEVNULL, stdout=subprocess.DEVNULL, stderr=subprocess.DEVNULL)
+        cleanup.append(lambda: (pr.kill(), pr.wait()))
+    elif world == 'devfull-link':
+        if not os.path.exists('/dev/full'):
+            return None, cleanup
+        os.symlink('/dev/full', path)
+    elif world == 'devnull-link':
+        os.symlink('/dev/null', path)
+    if world in ('ro-dir-file', 'ro-dir-absent'):
+        os.chmod(d, 0o555)
+    elif world == 'hidden-file':
+        os.chmod(d, 0o600)
+    return path, cleanup
+
+
+def _probe_open_fails(path):
+    """side-effect-free: does opening the existing path for writing fail?  None = cannot tell"""
+    try:
+        fd = os.open(path, os.O_WRONLY | os.O_NONBLOCK)
+    except OSError:
+        return True
+    os.close(fd)
+    return False
+
+
+def _result(torf, fn):
+    try:
+        fn()
+        return ['ok', None]
+    except RecursionError:
+        return ['err', 'internal:RecursionError']
+    except Exception as e:  # noqa
+        return ['err', c07.err_kind(torf, e)]
+
+
+def _run_file(torf, wd, c, t, obs):
+    world, fault = c['world'], c.get('fault')
+    _, open_err, nobody, quota = FILE_WORLDS[world]
+    base = os.path.join(wd, 'tgt')
+    _rmtree(base)
+    path, cleanup = _build_world(base, world)
+    try:
+        if path is None:
+            obs['unavailable'] = 'world cannot be built here'
+            return
+        if world == 'hidden-file' and os.geteuid() != 0:
+            obs['unavailable'] = 'an unprivileged harness cannot look into the unsearchable directory itself'
+            return
+        before_node, before = _node(path), _snapshot(base)
+        ident = _Identity(nobody)
+        with ident:
+            exists_ans = os.path.exists(path)
+            probe = _probe_open_fails(path) if before_node['k'] != 'absent' and world != 'hidden-file' else None
+        if probe is not None and probe != open_err and world not in ('devfull-link', 'devnull-link'):
+            obs['unavailable'] = f'platform does not behave as the world expects (open fails: {probe})'
+            return
+        if fault is not None and fault['kind'] == 'open':
+            open_err = True
+        if fault is not None and fault['kind'] in ('fsize', 'write'):
+            quota = fault['k']
+        obs['env'] = {'existsAns': exists_ans, 'openErr': open_err, 'closeErr': bool(fault and fault['kind'] == 'close')}
+        if quota is not None:
+            obs['env']['quota'] = quota
+        with _PatchedOpen(path, fault):
+            try:
+                with ident, _FsizeLimit(fault['k'] if fault and fault['kind'] == 'fsize' else None):
+                    obs['result'] = _result(torf, lambda: t.write(path, validate=c['validate'], overwrite=c['overwrite']))
+            finally:
+                if os.geteuid() != os.getuid():
+                    os.seteuid(os.getuid())
+        after = _snapshot(base)
+        obs['before'], obs['after'] = before_node, _node(path)
+        tname = os.path.relpath(path, base)
+        mine = {tname, os.path.join('d', 'real.bin')} if world == 'symlink-file' else {tname}
+        obs['others_changed'] = sorted(k for k in set(before) | set(after)
+                                       if k not in mine and before.get(k) != after.get(k))[:5]
+        obs['entry'] = [{k: before.get(k) for k in sorted(mine)}, {k: after.get(k) for k in sorted(mine)}]
+    finally:
+        for fn in cleanup:
+            try:
+                fn()
+            except Exception:  # noqa
+                pass
+        _rmtree(base)
+
+
+def _open_stream(wd, kind, prior, pos):
+    """returns (stream, finish) where finish() -> (content bytes | None, pos | None) and releases everything"""
+    parts = kind.split(':')
+    if parts[0] == 'bytesio':
+        s = io.BytesIO(prior)
+        s.seek(pos)
+        return s, lambda: (s.getvalue(), s.tell())
+    if parts[0] == 'stringio':
+        s = io.StringIO(prior.decode('latin-1'))
+        s.seek(pos)
+        return s, lambda: (s.getvalue().encode('latin-1'), None)
+    if parts[0] == 'sink':
+        s = Sink(prior)
+        return s, lambda: (bytes(s.buf), None)
+    if parts[0] in ('file', 'text'):
+        mode = parts[1]
+        p = os.path.join(wd, 'stream.bin')
+        with open(p, 'wb') as f:
+            f.write(prior if mode[0] != 'w' else b'')
+        kw = {'buffering': 0} if parts[-1] == '0' else {}
+        if parts[0] == 'text':
+            kw.update(encoding='latin-1', newline='')
+        s = open(p, mode, **kw)
+        if mode[0] == 'w':
+            s.write(prior)
+            s.flush()
+        s.seek(min(pos, len(prior)) if parts[0] == 'text' else pos)
+
+        def finish():
+            try:
+                tell = s.tell() if parts[0] == 'file' else None
+            except (OSError, ValueError):
+                tell = None
+            try:
+                s.close()
+            except OSError:
+                pass
+            with open(p, 'rb') as f:
+                return f.read(), tell
+        return s, finish
+    if parts[0] in ('pipe', 'brokenpipe'):
+        r, w = os.pipe()
+        os.set_blocking(w, False)
+        s = os.fdopen(w, 'wb', **({'buffering': 0} if parts[-1] == '0' else {}))
+        if parts[0] == 'brokenpipe':
+            os.close(r)
+
+            def finish():
+                try:
+                    s.close()
+                except OSError:
+                    pass
+                return None, None
+            return s, finish
+        s.write(prior)
+        s.flush()
+
+        def finish():
+            try:
+                s.close()
+            except OSError:
+                pass
+            chunks = []
+            with os.fdopen(r, 'rb') as rf:
+                while True:
+                    b = rf.read(65536)
+                    if not b:
+                        break
+                    chunks.append(b)
+            return b''.join(chunks), None
+        return s, finish
+    raise ValueError(kind)
+
+
+def _run_stream(torf, wd, c, t, obs):
+    kind, prior, pos, fault = c['stream'], PRIORS[c['prior']], c['pos'], c.get('fault')
+    inner, finish = _open_stream(wd, kind, prior, pos)
+    s = inner
+    wrapped = fault is not None and 'fsize' not in fault
+    if wrapped:
+        s = Faulty(inner, at=fault.get('at'), quota=fault.get('quota'), short=fault.get('short', False))
+    try:
+        with _FsizeLimit(fault['fsize'] if fault and 'fsize' in fault else None):
+            obs['result'] = _result(torf, lambda: t.write_stream(s, validate=c['validate']))
+    finally:
+        content, tell = finish()
+    obs['content'] = None if content is None else content.hex()
+    obs['pos'] = tell
+    obs['calls'] = s.calls if wrapped else None
 
 
 def _run_chunk(cases):
@@ -74,103 +556,238 @@ def _run_chunk(cases):
             except Exception as e:  # noqa
                 obs['dump'] = ['err', c07.err_kind(torf, e)]
             if c['target'] == 'file':
-                base = os.path.join(wd, 'tgt')
-                shutil.rmtree(base, ignore_errors=True)
-                os.makedirs(base)
-                path = os.path.join(base, 'out.torrent')
-                if c['node'] == 'file':
-                    with open(path, 'wb') as f:
-                        f.write(OLD)
-                elif c['node'] == 'dir':
-                    os.makedirs(path)
-                    with open(os.path.join(path, 'keep'), 'wb') as f:
-                        f.write(b'k')
-                elif c['node'] == 'noparent':
-                    path = os.path.join(base, 'missing', 'out.torrent')
-                elif c['node'] == 'parentfile':
-                    with open(os.path.join(base, 'pf'), 'wb') as f:
-                        f.write(b'p')
-                    path = os.path.join(base, 'pf', 'out.torrent')
-                before = _node(path)
-                listing_before = sorted(os.listdir(base))
-                try:
-                    t.write(path, validate=c['validate'], overwrite=c['overwrite'])
-                    obs['result'] = ['ok', None]
-                except RecursionError:
-                    obs['result'] = ['err', 'internal:RecursionError']
-                except Exception as e:  # noqa
-                    obs['result'] = ['err', c07.err_kind(torf, e)]
-                obs['before'], obs['after'] = before, _node(path)
-                obs['listing_same'] = listing_before == sorted(os.listdir(base))
+                _run_file(torf, wd, c, t, obs)
             else:
-                prior, pos = OLD, c['pos']
-                kind = c['stream']
-                fobj = None
-                if kind == 'bytesio':
-                    s = io.BytesIO(prior)
-                    s.seek(pos)
-                elif kind == 'failing':
-                    s = FailingBytesIO(prior)
-                    s.seek(pos)
-                elif kind == 'sink':
-                    s = Sink(prior)
-                elif kind == 'failing-sink':
-                    s = Sink(prior, fail=True)
-                else:
-                    p = os.path.join(wd, 'stream.bin')
-                    with open(p, 'wb') as f:
-                        f.write(prior)
-                    s = fobj = open(p, 'r+b')
-                    s.seek(pos)
-                try:
-                    t.write_stream(s, validate=c['validate'])
-                    obs['result'] = ['ok', None]
-                except RecursionError:
-                    obs['result'] = ['err', 'internal:RecursionError']
-                except Exception as e:  # noqa
-                    obs['result'] = ['err', c07.err_kind(torf, e)]
-                if kind in ('sink', 'failing-sink'):
-                    obs['content'] = bytes(s.buf).hex()
-                    obs['pos'] = None
-                elif fobj is not None:
-                    obs['pos'] = fobj.tell()
-                    fobj.close()
-                    with open(p, 'rb') as f:
-                        obs['content'] = f.read().hex()
-                else:
-                    obs['content'] = s.getvalue().hex()
-                    obs['pos'] = s.tell()
+                _run_stream(torf, wd, c, t, obs)
         except Exception as e:  # noqa
             obs = {'harness-error': f'{type(e).__name__}: {e}'}
         out.append((c, obs))
     return out
 
 
-def gen_cases(ctx, scale=1.0):
-    rng = ctx.rng
-    mds = [c for c in c07.fixed_cases()]
-    mds += [c07.gen_case(rng) for _ in range(int(ctx.n(1200, 40000) * scale))]
-    mds += [c07.gen_case(rng, outside=True) for _ in range(int(ctx.n(100, 3000) * scale))]
+# ---------------------------------------------------------------------------------------------------------
+# generator
+def _stream_model(c):
+    """the model's stream object for a case"""
+    flags = dict(STREAM_KINDS[c['stream']])
+    prior = PRIORS[c['prior']] if not c['stream'].startswith('brokenpipe') else b''
+    seekable = flags.get('seekable', True)
+    pos = c['pos'] if seekable else 0
+    if c['stream'].startswith('text'):
+        pos = min(pos, len(prior))
+    s = {'content': prior.hex(), 'pos': pos, **flags}
+    f = c.get('fault') or {}
+    if 'at' in f:
+        s['faultAt'] = f['at']
+    if 'quota' in f:
+        s['quota'] = f['quota']
+    if f.get('short'):
+        s['short'] = True
+    if 'fsize' in f:        # a raw file under RLIMIT_FSIZE = k: write() takes k bytes and returns k; raises only if k = 0
+        s['quota'] = f['fsize']
+        s['short'] = f['fsize'] > 0
+    return s
+
+
+def file_worlds():
+    """every (world, fault) the sweep plays"""
+    out = [(w, None) for w in FILE_WORLDS]
+    for w in FAULTABLE:
+        out += [(w, {'kind': 'open', 'errno': e}) for e in OPEN_ERRNOS]
+        out += [(w, {'kind': 'write', 'k': k}) for k in QUOTAS]
+        out += [(w, {'kind': 'fsize', 'k': k}) for k in QUOTAS]
+        out += [(w, {'kind': 'close'})]
+    out += [('devfull-link', {'kind': 'close'}), ('dir', {'kind': 'open', 'errno': 'EACCES'}),
+            ('emptydir', {'kind': 'open', 'errno': 'EACCES'}), ('symlink-loop', {'kind': 'open', 'errno': 'EACCES'}),
+            ('ro-file', {'kind': 'write', 'k': 1})]
+    return out
+
+
+def stream_worlds():
+    """every (kind, prior, pos, fault) the sweep plays"""
+    out = []
+    for kind, flags in STREAM_KINDS.items():
+        seekable = flags.get('seekable', True)
+        for prior in PRIORS:
+            n = len(PRIORS[prior])
+            poss = sorted({0, 1, n // 2, n, n + 5}) if seekable else [0]
+            if kind.startswith('brokenpipe') and prior != 'empty':
+                continue
+            for pos in poss:
+                out.append((kind, prior, pos, None))
+    for kind in FAULTY_INNER:
+        seekable = STREAM_KINDS[kind].get('seekable', True)
+        for prior in ('short', 'long'):
+            n = len(PRIORS[prior])
+            for pos in ([0, 3, n] if seekable else [0]):
+                for f in STREAM_FAULTS:
+                    out.append((kind, prior, pos, f))
+    for kind in RAW_FILE_KINDS:
+        for prior in ('short', 'long'):
+            for k in RAW_FSIZE:
+                out.append((kind, prior, 3, {'fsize': k}))
+    return out
+
+
+def _mk(m, rng, **kw):
+    c = {'md': m['md'], 'labels': m['labels'], 'validate': m.get('validate', True)}
+    c.update(kw)
+    return c
+
+
+def sweep_mds(rng, extra=0):
+    """a handful of metainfos for the exhaustive world sweep: valid ones of different size, an invalid one, an
+    unconvertible one (passes validate()), one outside PyVal (+ `extra` more: valid and mutated alternately)"""
+    fixed = {m['labels'][0]: m for m in c07.fixed_cases()}
+    mds = [{'md': c07.base_metainfo(rng, multi=False), 'labels': ['base-single']},
+           {'md': c07.base_metainfo(rng, multi=True), 'labels': ['base-multi']},
+           dict(fixed['pieces-39-bytes'], validate=False)]          # dump(validate=False) succeeds
+    mds += [fixed['pieces-39-bytes'], fixed['inf-value'], fixed['cyclic-list']]
+    for i in range(extra):
+        if i % 2 == 0:
+            mds.append({'md': c07.base_metainfo(rng), 'labels': [f'base-{i}'], 'validate': rng.random() < 0.8})
+        else:
+            mds.append(dict(c07.gen_case(rng, outside=i % 8 == 7), validate=rng.random() < 0.8))
+    return mds
+
+
+def random_world(rng, c):
+    if rng.random() < 0.5:
+        w, f = rng.choice(FILE_WORLD_LIST)
+        c.update(target='file', world=w, overwrite=rng.random() < 0.6)
+        if f is not None:
+            c['fault'] = f
+    else:
+        k, p, pos, f = rng.choice(STREAM_WORLD_LIST)
+        c.update(target='stream', stream=k, prior=p, pos=pos)
+        if f is not None:
+            c['fault'] = f
+
+
+FILE_WORLD_LIST = file_worlds()
+STREAM_WORLD_LIST = stream_worlds()
+SLOW_WORLDS = ('busy-exe',)
+
+
+def sweep_cases(rng, mds, thin=1.0):
     cases = []
-    for i, m in enumerate(mds):
-        for _ in range(2):
-            c = {'md': m['md'], 'labels': m['labels'], 'validate': rng.random() < 0.85}
-            if rng.random() < 0.55:
-                c.update(target='file', node=rng.choice(['absent', 'file', 'file', 'dir', 'noparent', 'parentfile']),
-                         overwrite=rng.random() < 0.5)
-            else:
-                c.update(target='stream', stream=rng.choice(['bytesio', 'bytesio', 'sink', 'failing', 'failing-sink', 'realfile']),
-                         pos=rng.choice([0, 1, 3, 7, len(OLD), len(OLD) + 5]))
+    for m in mds:
+        for w, f in FILE_WORLD_LIST:
+            for ov in (False, True):
+                if w in SLOW_WORLDS and rng.random() > 0.35 * thin:
+                    continue
+                if thin < 1.0 and rng.random() > thin:
+                    continue
+                c = _mk(m, rng, target='file', world=w, overwrite=ov)
+                if f is not None:
+                    c['fault'] = f
+                cases.append(c)
+        for k, p, pos, f in STREAM_WORLD_LIST:
+            if thin < 1.0 and rng.random() > thin:
+                continue
+            c = _mk(m, rng, target='stream', stream=k, prior=p, pos=pos)
+            if f is not None:
+                c['fault'] = f
             cases.append(c)
     return cases
 
 
+def gen_cases(ctx, scale=1.0):
+    rng = ctx.rng
+    # (1) every world on a handful of metainfos
+    cases = sweep_cases(rng, sweep_mds(rng, extra=int(ctx.n(0, 60) * scale) if ctx.thorough else 0))
+    # (2) every recipe in random worlds
+    mds = [c for c in c07.fixed_cases()]
+    mds += [c07.gen_case(rng) for _ in range(int(ctx.n(1200, 40000) * scale))]
+    mds += [c07.gen_case(rng, outside=True) for _ in range(int(ctx.n(100, 3000) * scale))]
+    for m in mds:
+        for _ in range(2):
+            c = {'md': m['md'], 'labels': m['labels'], 'validate': rng.random() < 0.85}
+            random_world(rng, c)
+            if c.get('world') in SLOW_WORLDS and rng.random() < 0.8:
+                c['world'] = 'ro-file'
+            cases.append(c)
+    return cases
+
+
+def load_corpus():
+    out = []
+    d = os.path.join(common.CORPUS_DIR, 'C17')
+    if os.path.isdir(d):
+        for fn in sorted(os.listdir(d)):
+            if fn.endswith('.json'):
+                c = json.load(open(os.path.join(d, fn)))
+                c.setdefault('labels', ['corpus:' + fn])
+                out.append(c)
+    return out
+
+
+CASE_KEYS = ('md', 'labels', 'validate', 'target', 'world', 'overwrite', 'stream', 'prior', 'pos', 'fault')
+
+
 def case_public(c):
-    return {k: c[k] for k in ('md', 'labels', 'validate', 'target', 'node', 'overwrite', 'stream', 'pos') if k in c}
+    return {k: c[k] for k in CASE_KEYS if k in c}
 
 
 def _cls(x):
     return 'ok' if x[0] == 'ok' else x[1].split(':')[0]
+
+
+def _res_json(x):
+    return {'ok': True} if x[0] == 'ok' else {'err': x[1]}
+
+
+def _dump_json(x):
+    return {'ok': x[1]} if x[0] == 'ok' else {'err': x[1]}
+
+
+def _short(x, n=160):
+    s = x if isinstance(x, str) else json.dumps(x, sort_keys=True)
+    return s if len(s) <= n else s[:n] + f'…({len(s)})'
+
+
+def _why_file(c, obs):
+    res, d, before, after = obs['result'], obs['dump'], obs['before'], obs['after']
+    failing = res[0] == 'err'
+    refused = not c['overwrite'] and obs['env']['existsAns']
+    if failing and before['k'] != 'absent' and after['k'] == 'absent':
+        return f'write() failed ({res[1]}) and removed what was at the target'
+    if refused and res != ['err', 'write']:
+        return 'write(overwrite=False) on an existing path did not raise WriteError'
+    if refused and after != before:
+        return 'write(overwrite=False) modified an existing path'
+    if failing and after != before:
+        return f'write() failed ({res[1]}) but the target changed'
+    if not failing and (d[0] != 'ok' or after != {'k': 'file', 'content': d[1]}):
+        return 'write() succeeded but the path does not hold exactly dump()'
+    if failing and d[0] == 'err' and res[1] != d[1]:
+        return 'write() raised a different error than dump()'
+    if failing and d[0] == 'ok' and res[1] != 'write':
+        return 'an unwritable target is not reported as WriteError'
+    if failing:
+        return f'write() failed ({res[1]}) although nothing prevents the export'
+    return 'write(): outcome not accepted by the specification'
+
+
+def _why_stream(c, obs, sm):
+    res, d = obs['result'], obs['dump']
+    if d[0] == 'err':
+        return 'write_stream(): dump failed but the stream was touched / another error was raised'
+    if res[0] == 'ok':
+        return 'write_stream() succeeded but the stream does not hold ' + (
+            'exactly the dumped bytes' if sm.get('seekable', True) else 'its old content followed by the dumped bytes')
+    if res[1] != 'write':
+        return f'write_stream(): failure of the stream reported as {res[1]}, not WriteError'
+    return 'write_stream() failed although the stream has no fault'
+
+
+MATCHERS = {
+    # D17a: only a *raw* stream (write() may return a short count) that took a strict initial segment, and
+    # write_stream() nevertheless returned normally with exactly that segment in the stream
+    'raw_short_write_ignored': lambda case, observed, f: (
+        case.get('target') == 'stream' and bool((case.get('fault') or {}).get('short') or (case.get('fault') or {}).get('fsize'))
+        and observed.get('result') == ['ok', None] and observed.get('raw_short_write') is True),
+}
 
 
 def evaluate(ctx, drv, cases):
@@ -178,115 +795,151 @@ def evaluate(ctx, drv, cases):
     flat = [x for chunk in results for x in chunk]
     reqs = []
     for c, obs in flat:
-        if 'harness-error' in obs or not R.in_domain(c['md']):
-            reqs.append({'op': 'ping'})
+        if 'harness-error' in obs or 'unavailable' in obs:
+            reqs += [{'op': 'ping'}, {'op': 'ping'}]
             continue
-        req = {'md': R.to_driver(c['md']), 'urls': c07.url_table(c['md']), 'validate': c['validate']}
         if c['target'] == 'file':
-            node = {'absent': {'k': 'absent'}, 'file': {'k': 'file', 'content': OLD.hex()}, 'dir': {'k': 'dir'},
-                    'noparent': {'k': 'absent'}, 'parentfile': {'k': 'absent'}}[c['node']]
-            req.update(op='c17.write', overwrite=c['overwrite'], node=node,
-                       parentOk=c['node'] not in ('noparent', 'parentfile'))
+            judge = {'op': 'c17.judge.write', 'dump': _dump_json(obs['dump']), 'overwrite': c['overwrite'],
+                     'node': obs['before'], 'env': obs['env'], 'result': _res_json(obs['result']),
+                     'nodeAfter': obs['after']}
+            model = {'op': 'c17.write', 'overwrite': c['overwrite'], 'node': obs['before'], 'env': obs['env']}
         else:
-            seekable = c['stream'] in ('bytesio', 'failing', 'realfile')
-            req.update(op='c17.stream', seekable=seekable, content=OLD.hex(), pos=c['pos'] if seekable else 0,
-                       writeFails=c['stream'] in ('failing', 'failing-sink'))
-        reqs.append(req)
+            sm = _stream_model(c)
+            judge = {'op': 'c17.judge.stream', 'dump': _dump_json(obs['dump']), 'stream': sm,
+                     'result': _res_json(obs['result']),
+                     'contentAfter': obs['content'] if obs['content'] is not None else sm['content']}
+            if obs['pos'] is not None:
+                judge['posAfter'] = obs['pos']
+            if obs['calls'] is not None:
+                judge['callsAfter'] = obs['calls']
+            model = {'op': 'c17.stream', 'stream': sm}
+        if R.in_domain(c['md']):
+            model.update(md=R.to_driver(c['md']), urls=c07.url_table(c['md']), validate=c['validate'])
+        else:
+            model = {'op': 'ping'}
+        reqs += [judge, model]
     replies = drv.run(reqs)
-    for (c, obs), rep in zip(flat, replies):
+    for i, (c, obs) in enumerate(flat):
+        jrep, rep = replies[2 * i], replies[2 * i + 1]
         case = case_public(c)
         if 'harness-error' in obs:
             ctx.case(kind='harness-error')
             ctx.machinery_error('harness could not run the case: ' + obs['harness-error'], case)
             continue
+        if 'unavailable' in obs:
+            ctx.dist['unavailable:' + c.get('world', '?')] += 1
+            continue
         res, d = obs['result'], obs['dump']
         failing = res[0] == 'err'
         key = hashlib.sha1(json.dumps(case, sort_keys=True).encode()).hexdigest()
-        kind = (c['target'] + ':' + (c.get('node') or c.get('stream')) + ':' + ('fail' if failing else 'ok'))
-        ctx.case(key=key, nontrivial=failing or c.get('node') in ('file', 'dir') or c['target'] == 'stream', kind=kind)
+        where = c.get('world') or c.get('stream')
+        fk = c.get('fault')
+        fkind = '' if fk is None else '+' + (fk.get('kind') or ('short' if fk.get('short') else 'fsize' if 'fsize' in fk else 'at' if 'at' in fk else 'quota'))
+        ctx.case(key=key, nontrivial=failing or c['target'] == 'stream' or obs['before']['k'] != 'absent',
+                 kind=f"{c['target']}:{where}{fkind}:{'fail' if failing else 'ok'}")
         ctx.dist['dump:' + (d[1].split(':')[0] if d[0] == 'err' else 'ok')] += 1
         if ctx.evaluations in (1, 2, 3) or (len(ctx.samples) < 6 and ctx.rng.random() < 0.002):
             ctx.sample({'case': {k: v for k, v in case.items() if k != 'md'}, 'labels': c['labels'],
                         'result': res, 'dump': [d[0], str(d[1])[:40]]})
-        # ---- I ∈ S ---------------------------------------------------------------------------
+        # ---- I ∈ S : the Lean specification judges what the implementation did ------------------
         if c['target'] == 'file':
             before, after = obs['before'], obs['after']
-            existed = before['k'] != 'absent'
-            if failing and (after != before or not obs['listing_same']):
-                ctx.violation(f'write() failed ({res[1]}) but the target changed', case, before, {'after': after, 'result': res})
-            if not c['overwrite'] and existed:
-                if res != ['err', 'write']:
-                    ctx.violation('write(overwrite=False) on an existing path did not raise WriteError', case,
-                                  ['err', 'write'], {'result': res})
-                if after != before:
-                    ctx.violation('write(overwrite=False) modified an existing path', case, before, {'after': after})
-            if not failing:
-                if d[0] != 'ok' or after != {'k': 'file', 'content': d[1]}:
-                    ctx.violation('write() succeeded but the file does not hold exactly dump()', case,
-                                  [d[0], str(d[1])[:200]], {'after': str(after)[:300]})
-            elif d[0] == 'err' and (c['overwrite'] or not existed) and res[1] != d[1]:
-                ctx.violation('write() raised a different error than dump()', case, d, {'result': res})
+            observed = {'result': res, 'after': _short(after), 'env': obs['env']}
+            if not jrep['accepted']:
+                ctx.violation(_why_file(c, obs), case, {'before': _short(before), 'dump': _short(d), 'spec': 'fileSpec'},
+                              observed)
+            if obs['others_changed'] and failing:
+                ctx.violation(f'write() failed ({res[1]}) but left a trace next to the target', case,
+                              'nothing else in the directory changes', {**observed, 'changed': obs['others_changed']})
+            if failing and after == before and obs['entry'][0] != obs['entry'][1]:
+                ctx.violation(f'write() failed ({res[1]}) but the type/mode of the target changed', case,
+                              _short(obs['entry'][0]), {**observed, 'entry': _short(obs['entry'][1])})
         else:
-            seekable = c['stream'] in ('bytesio', 'failing', 'realfile')
-            fails = c['stream'] in ('failing', 'failing-sink')
-            if d[0] == 'err':
-                if res != d or obs['content'] != OLD.hex():
-                    ctx.violation('write_stream(): dump failed but the stream was touched / other error', case,
-                                  {'result': d, 'content': OLD.hex()}, {'result': res, 'content': obs['content'][:200]})
-                if seekable and obs['pos'] != c['pos']:
-                    ctx.violation('write_stream(): dump failed but the stream position moved', case, c['pos'], {'pos': obs['pos']})
-            elif fails:
-                if res != ['err', 'write']:
-                    ctx.violation('write_stream(): OSError from stream.write not reported as WriteError', case,
-                                  ['err', 'write'], {'result': res})
-            else:
-                want = d[1] if seekable else OLD.hex() + d[1]
-                if res[0] != 'ok' or obs['content'] != want:
-                    ctx.violation('write_stream() succeeded but the stream does not hold the dumped bytes', case,
-                                  want[:200], {'result': res, 'content': obs['content'][:200]})
-        # ---- model ---------------------------------------------------------------------------
+            sm = _stream_model(c)
+            if not jrep['accepted']:
+                part = None
+                if d[0] == 'ok' and sm.get('short') and obs['content'] is not None:
+                    part = (('' if sm.get('seekable', True) else sm['content']) + d[1][:2 * sm['quota']]) == obs['content'] \
+                        and 2 * sm['quota'] < len(d[1])
+                ctx.violation(_why_stream(c, obs, sm), case,
+                              {'stream': _short(sm), 'dump': _short(d), 'spec': 'streamSpec'},
+                              {'result': res, 'content': _short(obs['content'] or ''), 'pos': obs['pos'],
+                               'calls': obs['calls'], 'raw_short_write': part}, finding_matchers=MATCHERS)
+        # ---- model ------------------------------------------------------------------------------
         if not R.in_domain(c['md']):
             ctx.dist['outside-PyVal'] += 1
             continue
-        if not rep['specOk']:
-            ctx.machinery_error('model result violates the executable specification although C17_* are proved', case)
+        if not rep['specOk'] and rep.get('partialHyp', True):
+            ctx.machinery_error('model result violates the executable specification although C17_*_meets_spec are proved', case)
         if not rep['hyp']:
             ctx.dist['outside-hyp'] += 1
             continue
         mres = rep['result']
         mcls = 'ok' if 'ok' in mres else mres['err'].split(':')[0]
-        same = mcls == _cls(res)
+        same = mcls == _cls(res) and ('ok' in mres or mres['err'] == res[1] or mcls != 'internal')
         if c['target'] == 'file':
             same = same and rep['node'] == obs['after']
+            if same and obs['others_changed']:
+                same = False
         else:
-            same = same and rep['content'] == obs['content']
-            if same and obs['pos'] is not None and c['stream'] != 'realfile' and 'ok' in mres:
+            if obs['content'] is not None:
+                same = same and rep['content'] == obs['content']
+            if same and obs['pos'] is not None:
                 same = rep['pos'] == obs['pos']
         if not same:
             ctx.corr_break('c17.' + c['target'], case,
-                           {'result': mres, 'node': str(rep.get('node'))[:200], 'content': str(rep.get('content'))[:200], 'pos': rep.get('pos')},
-                           {'result': res, 'after': str(obs.get('after'))[:200], 'content': str(obs.get('content'))[:200], 'pos': obs.get('pos')})
+                           {'result': mres, 'node': _short(rep.get('node')), 'content': _short(rep.get('content')),
+                            'pos': rep.get('pos')},
+                           {'result': res, 'after': _short(obs.get('after')), 'content': _short(obs.get('content')),
+                            'pos': obs.get('pos'), 'others_changed': obs.get('others_changed')})
+
+
+def _batches(ctx, drv, cases):
+    for i in range(0, len(cases), 40000):
+        evaluate(ctx, drv, cases[i:i + 40000])
 
 
 def run(ctx, drv):
     ctx.notes['rule'] = RULE
     ctx.notes['assumptions'] = [
-        'the content producer is the C07 model of dump(); its assumptions (numbers < 2^53, depth <= 100, URL oracle) apply',
-        'file system = the one path write() is given: absent | file | directory, parent present or not; the harness '
-        'runs as root, so permission denials are not exercised (open() fails for a directory or a missing/non-directory parent)',
-        'a failure of f.write() after open() succeeded (disk full) is modelled (writeFault) but outside C17_file_atomic '
-        'and not exercised on real files',
-        'non-seekable streams are sinks that append; BytesIO semantics of seek/truncate/write are modelled',
+        'the content producer is the C07 model of dump(); its assumptions (numbers < 2^53, depth <= 100, URL oracle) apply; '
+        'the specification is evaluated with what dump() really returned, for every case (also outside PyVal / hyp)',
+        'file system = the one path write() is given plus the operating system\'s answers to exists/open/write/close; '
+        'node and exists() are observed, "open fails" is what the world is built to provoke (cross-checked with a '
+        'side-effect-free O_WRONLY probe where the path exists); worlds the platform cannot provide are skipped and counted',
+        'permission denials are real (effective uid 65534 while the export runs) if the harness is root or the files are its own; '
+        'write-time faults are real (RLIMIT_FSIZE -> EFBIG after k bytes, /dev/full -> ENOSPC) and injected '
+        '(builtins.open patched for the target path only: errno at open, OSError after k bytes, OSError at close)',
+        'a fault during the final write (after open() succeeded) may leave an initial segment of the new content: '
+        'demanded is only that nothing is removed and nothing else appears (see notes/C17.md)',
+        'stream semantics: seek/truncate/write of BytesIO and of files incl. O_APPEND, read-only, text mode; a non-seekable '
+        'stream is a sink that appends; fault plan = the k-th of the calls seekable/seek/truncate/write raises OSError, '
+        'write raises after q bytes',
     ]
-    cases = gen_cases(ctx)
-    for i in range(0, len(cases), 40000):
-        evaluate(ctx, drv, cases[i:i + 40000])
+    _batches(ctx, drv, load_corpus() + gen_cases(ctx))
 
 
 def search(ctx, drv):
-    cases = gen_cases(ctx, scale=2.0)
-    for i in range(0, len(cases), 40000):
-        evaluate(ctx, drv, cases[i:i + 40000])
+    """model and implementation disagree somewhere but no outcome was rejected so far: (1) keep each disagreeing
+    case's metainfo and play every world on it, keep its world and play many metainfos in it; (2) larger random run"""
+    rng = ctx.rng
+    seen = []
+    for b in ctx.corr_breaks[:8]:
+        c = b['case']
+        if any(c['md'] == s for s in seen):
+            continue
+        seen.append(c['md'])
+        m = {'md': c['md'], 'labels': c.get('labels', ['search'])}
+        cases = sweep_cases(rng, [m])
+        for v in (True, False):
+            for m2 in c07.fixed_cases() + [c07.gen_case(rng) for _ in range(150)]:
+                c2 = dict(c)
+                c2.update(md=m2['md'], labels=m2['labels'], validate=v)
+                cases.append(c2)
+        _batches(ctx, drv, cases)
+        if ctx.violations:
+            return
+    _batches(ctx, drv, gen_cases(ctx, scale=2.0))
 
 
 def replay(ctx, drv, rp):
